@@ -1800,6 +1800,90 @@ fn self_ty_key(t: &Type) -> String {
     t.to_token_stream().to_string().replace(' ', "")
 }
 
+/// L1 (closure lifting): the k-th closure passed to a call named `callee` inside the function
+/// `at` is COPIED out as a method / free function appended at the end of the file, with the
+/// signature the overlay gives; it can then carry a contract like any other unit.  Returns the
+/// text to append and a log line.
+fn lift_closure(src: &str, file: &File, at: &str, callee: &str, k: usize, sig: &str) -> std::result::Result<(String, String, usize, usize), String> {
+    struct Find<'s> {
+        callee: &'s str,
+        k: usize,
+        seen: usize,
+        found: Option<(usize, usize, bool)>,
+    }
+    impl<'s, 'ast> Visit<'ast> for Find<'s> {
+        fn visit_expr_call(&mut self, e: &'ast ExprCall) {
+            if let Expr::Path(ep) = &*e.func {
+                if ep.path.segments.last().map(|x| x.ident == self.callee).unwrap_or(false) {
+                    for a in e.args.iter() {
+                        if let Expr::Closure(c) = a {
+                            self.seen += 1;
+                            if self.seen == self.k && self.found.is_none() {
+                                let r = range_of(&*c.body);
+                                self.found = Some((r.0, r.1, matches!(&*c.body, Expr::Block(_))));
+                            }
+                        }
+                    }
+                }
+            }
+            visit::visit_expr_call(self, e);
+        }
+        fn visit_expr_method_call(&mut self, e: &'ast ExprMethodCall) {
+            if e.method == self.callee {
+                for a in e.args.iter() {
+                    if let Expr::Closure(c) = a {
+                        self.seen += 1;
+                        if self.seen == self.k && self.found.is_none() {
+                            let r = range_of(&*c.body);
+                            self.found = Some((r.0, r.1, matches!(&*c.body, Expr::Block(_))));
+                        }
+                    }
+                }
+            }
+            visit::visit_expr_method_call(self, e);
+        }
+    }
+    let attrs_text = |attrs: &[Attribute]| -> String {
+        attrs.iter().filter(|a| a.path().is_ident("cfg")).map(|a| src[range_of(a).0..range_of(a).1].to_string()).collect::<Vec<_>>().join("\n")
+    };
+    for item in &file.items {
+        match item {
+            Item::Impl(im) => {
+                let key = impl_key(im);
+                for ii in &im.items {
+                    if let ImplItem::Fn(m) = ii {
+                        if format!("impl:{}/{}", key, m.sig.ident) == at {
+                            let mut f = Find { callee, k, seen: 0, found: None };
+                            f.visit_block(&m.block);
+                            let (a, b, is_block) = f.found.ok_or_else(|| format!("L1: closure {callee}#{k} not found in {at}"))?;
+                            let body = if is_block { src[a..b].to_string() } else { format!("{{ {} }}", &src[a..b]) };
+                            let st = src[range_of(&*im.self_ty).0..range_of(&*im.self_ty).1].to_string();
+                            let l1 = line_of(src, a);
+                            let l2 = line_of(src, b);
+                            let text = format!("\n// L1: copy of the closure passed to `{callee}` (#{k}) in {at}, source lines {l1}-{l2}\n{}\n{}\nimpl {st} {{\n    {sig} {body}\n}}\n", attrs_text(&im.attrs), attrs_text(&m.attrs));
+                            return Ok((text, format!("L1: closure {callee}#{k} of {at} (lines {l1}-{l2}) copied as `{sig}`"), l1, l2));
+                        }
+                    }
+                }
+            }
+            Item::Fn(fun) => {
+                if format!("fn:{}", fun.sig.ident) == at {
+                    let mut f = Find { callee, k, seen: 0, found: None };
+                    f.visit_block(&fun.block);
+                    let (a, b, is_block) = f.found.ok_or_else(|| format!("L1: closure {callee}#{k} not found in {at}"))?;
+                    let body = if is_block { src[a..b].to_string() } else { format!("{{ {} }}", &src[a..b]) };
+                    let l1 = line_of(src, a);
+                    let l2 = line_of(src, b);
+                    let text = format!("\n// L1: copy of the closure passed to `{callee}` (#{k}) in {at}, source lines {l1}-{l2}\n{}\n{sig} {body}\n", attrs_text(&fun.attrs));
+                    return Ok((text, format!("L1: closure {callee}#{k} of {at} (lines {l1}-{l2}) copied as `{sig}`"), l1, l2));
+                }
+            }
+            _ => {}
+        }
+    }
+    Err(format!("L1: function {at} not found"))
+}
+
 fn impl_key(i: &ItemImpl) -> String {
     let st = self_ty_key(&i.self_ty);
     match &i.trait_ {
@@ -1917,6 +2001,37 @@ fn main() {
             Err(e) => {
                 all_errors.push(format!("cannot parse {path}: {e}"));
                 continue;
+            }
+        };
+        // L1: closures copied out as functions (phase 0; the rest works on the extended text)
+        let mut lift_log: Vec<String> = vec![];
+        let mut lift_missing: Vec<String> = vec![];
+        // (byte range in the extended text, original closure lines)
+        let mut lift_ranges: Vec<(usize, usize, usize, usize)> = vec![];
+        let (src, file) = {
+            let mut extra = String::new();
+            for lv in fcfg.get("lifts").and_then(|x| x.as_array()).unwrap_or(&vec![]) {
+                match lift_closure(&src, &file, &jstr(lv, "in"), &jstr(lv, "callee"), lv.get("k").and_then(|x| x.as_u64()).unwrap_or(1) as usize, &jstr(lv, "sig")) {
+                    Ok((t, l, l1, l2)) => {
+                        let st = src.len() + extra.len();
+                        extra.push_str(&t);
+                        lift_ranges.push((st, src.len() + extra.len(), l1, l2));
+                        lift_log.push(l);
+                    }
+                    Err(e) => lift_missing.push(e),
+                }
+            }
+            if extra.is_empty() {
+                (src, file)
+            } else {
+                let s2 = format!("{src}{extra}");
+                match syn::parse_file(&s2) {
+                    Ok(f2) => (s2, f2),
+                    Err(e) => {
+                        all_errors.push(format!("L1: lifted text of {path} does not parse: {e}"));
+                        (src, file)
+                    }
+                }
             }
         };
         let keep_items: HashSet<String> = fcfg["keep_items"].as_array().map(|a| a.iter().map(|x| x.as_str().unwrap().to_string()).collect()).unwrap_or_default();
@@ -2470,7 +2585,8 @@ fn main() {
             let (txt, log) = apply_edits(&src, (*a, *b), &fc.edits, &mut errs);
             rendered.push(json!({
                 "kind": kind, "name": name,
-                "src_start_line": line_of(&src, *a), "src_end_line": line_of(&src, *b),
+                "src_start_line": lift_ranges.iter().find(|r| r.0 <= *a && *a < r.1).map(|r| r.2).unwrap_or_else(|| line_of(&src, *a)),
+                "src_end_line": lift_ranges.iter().find(|r| r.0 <= *a && *a < r.1).map(|r| r.3).unwrap_or_else(|| line_of(&src, *b)),
                 "orig": &src[*a..*b], "text": txt, "edits": log,
             }));
         }
@@ -2485,7 +2601,7 @@ fn main() {
         out_files.insert(
             fname.clone(),
             json!({ "segments": rendered, "dropped": dropped, "warnings": fc.warnings, "degraded": fc.degraded,
-                    "auto_units": auto_names, "auto_items": auto_items, "ro_violations": fc.ro_violations, "missing_units": missing_units }),
+                    "auto_units": auto_names, "auto_items": auto_items, "ro_violations": fc.ro_violations, "missing_units": missing_units, "lifted": lift_log, "lift_missing": lift_missing }),
         );
     }
     let out = json!({ "files": out_files, "errors": all_errors, "rule_counts": total_rules });
